@@ -31,8 +31,9 @@ def main():
     ap.add_argument("--props")
     ap.add_argument("--no-tests", action="store_true")
     ap.add_argument("--seed", default="1")
+    ap.add_argument("--report", help="report file (default tools/seeded_report.json); use separate files for parallel runs")
     a = ap.parse_args()
-    rp = os.path.join(HERE, "tools", "seeded_report.json")
+    rp = a.report or os.path.join(HERE, "tools", "seeded_report.json")
     report = json.load(open(rp)) if os.path.exists(rp) else {}
     for d in a.dirs:
         d = os.path.abspath(d)
